@@ -672,6 +672,15 @@ pub fn gen_bucket_mates(check: &str, rng: &mut Rng) -> Value {
         let f = flav(rng);
         steps.push(json!({"k":"audit","bin":f.0,"mode":f.1,"what":["metadata","read","list"]}));
     }
+    if rng.chance(1, 2) {
+        // a listing during which the caller removes one of the keys for good (the iterator is lazy)
+        let mut l = json!({"k":"api","op":"list","rm_key":rng.idx(3),"rm_at":rng.below(3)});
+        set_flav(&mut l, flav(rng));
+        l["mode"] = json!("sync");
+        steps.push(l);
+        let f = flav(rng);
+        steps.push(json!({"k":"audit","bin":f.0,"mode":f.1,"what":["metadata","read","list"]}));
+    }
     scenario(check, keys, vals, steps, rng)
 }
 
@@ -728,6 +737,11 @@ pub fn gen_c09(rng: &mut Rng) -> Value {
     if let Some(steps) = sc["steps"].as_array_mut() {
         let mut i = 0;
         while i < steps.len() {
+            if steps[i]["op"] == "clear" && rng.chance(1, 4) {
+                // a temp file a crashed writer left behind is there when the cache is cleared
+                steps.insert(i, json!({"k":"env","act":"write_file","path":"$C/tmp/.tmpLEAKED","hex":"00ff"}));
+                i += 1;
+            }
             if steps[i]["op"] == "clear" && rng.chance(1, 3) {
                 let mut again = json!({"k":"api","op":"clear"});
                 set_flav(&mut again, flav(rng));
